@@ -2594,28 +2594,10 @@ define_struct_type(InterrogateType &itype, CPPStructType *cpptype,
     return;
   }
 
-  if (!forced &&
-      (cpptype->_file._source != CPPFile::S_local ||
-       in_ignorefile(cpptype->_file._filename_as_referenced))) {
-    // The struct type is defined in some other package or in an ignorable
-    // file, so don't try to output it.
-
-    // This means we also don't gather any information about its derivations
-    // or determine if an implicit destructor is necessary.  However, this is
-    // not important, and it causes problems if we do (how many implicit
-    // destructors do we need, anyway?).
-    itype._flags &= ~InterrogateType::F_fully_defined;
-    return;
-  }
-
-  // Make sure the class declaration within its parent scope isn't private or
-  // protected.  If it is, we can't export any of its members.
-  if (TypeManager::involves_unpublished(cpptype)) {
-    itype._flags &= ~InterrogateType::F_fully_defined;
-    itype._flags |= InterrogateType::F_unpublished;
-
-    // However, we still must record its base classes, so that we can record
-    // the full type hierarchy where an intermediate type is not published.
+  // Records the base classes of a class we otherwise say nothing about, so
+  // that the type hierarchy stays connected where an intermediate class is
+  // not published.
+  auto record_base_classes = [&]() {
     if (itype._derivations.empty()) {
       for (const CPPStructType::Base &base : cpptype->_derivation) {
         if (base._vis <= V_public) {
@@ -2632,6 +2614,38 @@ define_struct_type(InterrogateType &itype, CPPStructType *cpptype,
         }
       }
     }
+  };
+
+  if (!forced &&
+      (cpptype->_file._source != CPPFile::S_local ||
+       in_ignorefile(cpptype->_file._filename_as_referenced))) {
+    // The struct type is defined in some other package or in an ignorable
+    // file, so don't try to output it.
+
+    // This means we also don't gather any information about its derivations
+    // or determine if an implicit destructor is necessary.  However, this is
+    // not important, and it causes problems if we do (how many implicit
+    // destructors do we need, anyway?).
+    itype._flags &= ~InterrogateType::F_fully_defined;
+
+    // The exception is a class without published members: the package it
+    // belongs to may never mention it, and then nobody would know what it
+    // derives from.
+    if (TypeManager::involves_unpublished(cpptype)) {
+      record_base_classes();
+    }
+    return;
+  }
+
+  // Make sure the class declaration within its parent scope isn't private or
+  // protected.  If it is, we can't export any of its members.
+  if (TypeManager::involves_unpublished(cpptype)) {
+    itype._flags &= ~InterrogateType::F_fully_defined;
+    itype._flags |= InterrogateType::F_unpublished;
+
+    // However, we still must record its base classes, so that we can record
+    // the full type hierarchy where an intermediate type is not published.
+    record_base_classes();
     return;
   }
   if (TypeManager::involves_protected(cpptype)) {
